@@ -278,3 +278,6 @@ def save_regs(chk, repo):
            "registers held in between", bool(ok), f,
            "the yield lies between save and restore inside the ExitStack "
            "that owns the scratch registers")
+
+# added rules (appended to the explanation the evidence file carries)
+EXPLANATION += (" " + 'Added during the build (DESIGN.md 4.31, second table): (R04.6) bit-field stores keep the other bits of the byte - the bit-field branch of Memory._set by abstract execution on 63 field/value combinations, the byte expression evaluated for every old byte; odd-size formats in the layout family.')
